@@ -196,11 +196,37 @@ def meanAveragePrecisionML (C : Nat) (rows : List MLItem) : Rat :=
     problem whose examples are the classes of that row) -/
 def exampleAP (it : MLItem) : Rat := averagePrecision (it.truth.zip it.row)
 
+/-- the default `threshold` argument of `metrics.jaccard` (tied to the signature on every run) -/
+def jaccardThreshold : Rat := 1 / 2
+
 /-- `jaccard` of one example at threshold 1/2 -/
 def jaccard (it : MLItem) : Rat :=
-  let pairs := it.truth.zip (it.row.map (fun s => decide ((1 : Rat) / 2 < s)))
+  let pairs := it.truth.zip (it.row.map (fun s => decide (jaccardThreshold < s)))
   let union := pairs.countP (fun p => p.1 || p.2)
   if union = 0 then 0 else ratio (pairs.countP (fun p => p.1 && p.2)) union
+
+/-! ### the clip score of the multilabel task
+
+`multilabel_example_score` is `exp(-log_loss(y_true, y_score))` of one example with an indicator
+truth.  scikit-learn's `log_loss` clips every probability to `[eps, 1 - eps]` (`eps` = the machine
+epsilon of the score array's dtype, float32: 2⁻²³) and sums `-log p` over the true classes, so the
+score is the *product of the clipped probabilities of the true classes* (1 when no class is true).
+`exp`/`log` have no rational value: the harness compares this closed form with the float the
+library returned within 2⁻¹⁸ (float32 logarithms). -/
+
+/-- machine epsilon of float32 -/
+def f32eps : Rat := 1 / 8388608
+
+/-- `np.clip(p, eps, 1 - eps)` -/
+def clipEps (p : Rat) : Rat := if p < f32eps then f32eps else if 1 - f32eps < p then 1 - f32eps else p
+
+def prod : List Rat → Rat
+  | [] => 1
+  | x :: xs => x * prod xs
+
+/-- `multilabel_example_score` of one example -/
+def mlScore (it : MLItem) : Rat :=
+  prod ((it.truth.zip it.row).map (fun p => if p.1 then clipEps p.2 else 1))
 
 /-! ### metric kinds, their terms, and the tables of the four task modules -/
 
